@@ -25,7 +25,21 @@ func init() { suites["alloc"] = suiteAlloc }
 const allocPerByte = 700
 const allocConst = 64 << 10
 
+// oneByteReader hands out one byte per Read (no ByteScanner: NewDecoder buffers it)
+type oneByteReader struct{ r io.Reader }
+
+func (o oneByteReader) Read(p []byte) (int, error) {
+	if len(p) == 0 {
+		return 0, nil
+	}
+	return o.r.Read(p[:1])
+}
+
 func measureDecode(tn string, data []byte) (alloc uint64, obs string) {
+	return measureDecodeFrom(tn, bytes.NewReader(data))
+}
+
+func measureDecodeFrom(tn string, src io.Reader) (alloc uint64, obs string) {
 	t, _ := typeByName(tn)
 	pv := reflect.New(t)
 	var m0, m1 runtime.MemStats
@@ -36,7 +50,7 @@ func measureDecode(tn string, data []byte) (alloc uint64, obs string) {
 				obs = "panic " + firstLine(fmt.Sprint(p))
 			}
 		}()
-		err := kmip.NewDecoder(bytes.NewReader(data)).Decode(pv.Interface())
+		err := kmip.NewDecoder(src).Decode(pv.Interface())
 		if err == nil {
 			obs = "ok"
 		} else {
@@ -91,6 +105,21 @@ func suiteAlloc(args []string) {
 		}
 		if rep.Evaluations%64 == 0 {
 			runtime.GC()
+		}
+		// the same bytes trickling in one per Read: memory must follow what has arrived, not the number of reads
+		if what != "valid" && !stopped && len(data) <= 2048 && rep.Evaluations%3 == 0 {
+			a2, obs2 := measureDecodeFrom(tn, oneByteReader{bytes.NewReader(data)})
+			rep.Evaluations++
+			rep.Distribution["trickled"]++
+			if a2 > bound {
+				rep.Violations = append(rep.Violations, map[string]interface{}{"kind": "alloc", "type": tn, "bytes": hexBytes(data), "input_len": len(data), "allocated": a2, "bound": bound,
+					"what": what + " - delivered one byte per Read", "decode": obs2})
+				runtime.GC()
+				debug.FreeOSMemory()
+				if len(rep.Violations) >= 3 {
+					stopped = true
+				}
+			}
 		}
 	}
 	for i := 0; i < *n; i++ {
